@@ -607,7 +607,12 @@ def vef_case(type_byte, ndata, squashed=None, first_byte=0):
         class RecImage:
             @staticmethod
             def open(name):
+                # contract of Pillow (validated by the concrete 640-wide truncation sweep of C19): loading a PNG whose
+                # IDAT data holds fewer than width x height pixels raises OSError("image file is truncated")
                 holder["image_opened"] = True
+                w = holder.get("writer")
+                if w is None or w.bitmap is None or len(w.bitmap.cells) < w.width * w.height:
+                    raise Failure("OSError", "image file is truncated")
                 return RecImageFile()
 
         return dict(argv=["in.vef", "out.png"]), sink, {"in.vef": stream}, {"holder": holder, "intr": {"open": pysym.Intrinsic(fake_open), "png": FakePng, "Image": RecImage}}
